@@ -35,8 +35,8 @@ def do_pair(rec, hub, U, la, lb, regimes, rng):
     for kind, f in BINOPS:
         for reg in regimes:
             vx, vy = gen.values_pair(reg, kind, rng, sx, sy)
-            x = fd.FlodymArray(dims=gen.dimset(fd, U, la), values=vx)
-            y = fd.FlodymArray(dims=gen.dimset(fd, U, lb), values=vy)
+            x = fd.FlodymArray(dims=gen.dimset(fd, U, la), values=gen.relayout(vx, rng))
+            y = fd.FlodymArray(dims=gen.dimset(fd, U, lb), values=gen.relayout(vy, rng))
             try:
                 f(x, y)
             except Exception:
@@ -49,9 +49,9 @@ def do_scalars(rec, hub, U, la, rng):
     nums = [2, 0.5, np.float64(-1.25), np.int32(3), 0, -4.0]
     for reg in ("dyadic", "real"):
         vx = gen.values_one(reg, rng, sx)
-        x = fd.FlodymArray(dims=gen.dimset(fd, U, la), values=vx)
-        xnz = fd.FlodymArray(dims=gen.dimset(fd, U, la), values=gen.nonzero(vx, rng))
-        xpos = fd.FlodymArray(dims=gen.dimset(fd, U, la), values=np.abs(gen.nonzero(vx, rng)))
+        x = gen.Fresh(hub, fd.FlodymArray(dims=gen.dimset(fd, U, la), values=gen.relayout(vx, rng)))
+        xnz = gen.Fresh(hub, fd.FlodymArray(dims=gen.dimset(fd, U, la), values=gen.nonzero(vx, rng)))
+        xpos = gen.Fresh(hub, fd.FlodymArray(dims=gen.dimset(fd, U, la), values=np.abs(gen.nonzero(vx, rng))))
         for k in nums:
             for f in (lambda: x + k, lambda: k + x, lambda: x - k, lambda: k - x, lambda: x * k, lambda: k * x,
                       lambda: x.minimum(k), lambda: x.maximum(k)):
@@ -70,17 +70,16 @@ def do_scalars(rec, hub, U, la, rng):
                 f()
             except Exception:
                 pass
-        xi = x.copy()
         try:
-            xi.abs(inplace=True)
-            xj = x.copy()
-            xj.sign(inplace=True)
+            x.abs(inplace=True)
+            x.sign(inplace=True)
         except Exception:
             pass
     # integer dtype operands
-    xi = fd.FlodymArray(dims=gen.dimset(fd, U, la), values=rng.integers(-9, 10, size=sx))
+    xi = gen.Fresh(hub, fd.FlodymArray(dims=gen.dimset(fd, U, la), values=rng.integers(-9, 10, size=sx)))
     yi = fd.FlodymArray(dims=gen.dimset(fd, U, la), values=rng.integers(1, 10, size=sx))
-    for f in (lambda: xi + yi, lambda: xi - yi, lambda: xi * yi, lambda: xi / yi, lambda: xi.minimum(yi), lambda: 3 - xi, lambda: -xi, lambda: abs(xi)):
+    for f in (lambda: xi + yi, lambda: xi - yi, lambda: xi * yi, lambda: xi / yi, lambda: xi.minimum(yi), lambda: 3 - xi, lambda: -xi, lambda: abs(xi),
+              lambda: xi + 0.5, lambda: xi * 1.5, lambda: 0.25 - xi, lambda: xi / 2.5, lambda: xi.maximum(0.5), lambda: 2.5 * xi, lambda: xi - 0.75):
         try:
             f()
         except Exception:
